@@ -175,7 +175,7 @@ impl Property for C18 {
         if case.ty >= TYPES.len() || case.bits.is_empty() || case.pres.is_empty() {
             return Verdict::Trivial("malformed case");
         }
-        let dims = [case.dims.0 as usize, case.dims.1 as usize];
+        let dims = [case.dims.0 as usize % 7, case.dims.1 as usize % 7];
         dispatch(case.ty, &dims, V { case, st })
     }
     fn cases(tier: Tier) -> u64 {
